@@ -147,7 +147,11 @@ def _reissue_warnings(func):
             with warnings.catch_warnings(record=True) as warning_list:
                 result = func(*args, **kwargs)
         finally:
-            for warning in warning_list:
+            # Loop over a copy: catch_warnings manipulates process-wide state, and when API
+            # calls of several threads overlap, another thread can put the recorder of this
+            # call back in place, after which every re-issued warning is appended to
+            # warning_list itself (endless loop, unbounded memory).
+            for warning in tuple(warning_list):
                 warnings.warn(warning.message, warning.category, stacklevel=2)
         return result
 
